@@ -449,9 +449,13 @@ CONFIG = [
                 'self._flush_results_buffer': 'flush'},
       # the end pattern must be tried on the EMPTY string
       'calls_by_arg': {'seq_def.s_end.run': ("''", 'end_run_empty',
-                                             'end_run_other')},
+                                             'end_run_other'),
+                       's_def.s_end.run': ("''", 'end_run_empty',
+                                           'end_run_other')},
       'cells': {'seq_def.started': 'started', 'seq_def.s_end': 's_end',
                 'seq_def.current_section_id': 'section_id',
+                's_def.started': 'started', 's_def.s_end': 's_end',
+                's_def.current_section_id': 'section_id',
                 'filter_section_id': 'filter', 'ret': 'ret'}}),
     ('searchdef_run', 'searchkit/searchdef.py', 'SearchDef.run',
      {'locks': {},
